@@ -16,9 +16,10 @@ import (
 //
 // Rules, from the property statement and gRFC A71:
 //
-//	F1 a transport to server i>0 is created only if, in the same step, a stream
-//	   of a higher-priority server failed before delivering any response, and
-//	   some watched resource has no cached value.
+//	F1 a transport to server i>0 is created only if, in the same step, the stream
+//	   of the active server failed before delivering any response, and some
+//	   watched resource is uncached (gRFC A71: neither a value nor the knowledge
+//	   that it does not exist - watch expiry / SotW deletion - has been obtained).
 //	F2 if a stream of server j fails before delivering any response while some
 //	   watched resource has never received anything (no value, no error other
 //	   than connectivity errors) and a server below j has no transport, then a
@@ -41,6 +42,7 @@ type FallbackModel struct {
 	watched    map[string]int    // typeURL|name -> watcher count
 	wOf        map[int]string    // watcher -> key
 	hasValue   map[string]bool   // key -> last non-ambient callback was a ResourceChanged
+	notExist   map[string]bool   // key -> last non-ambient callback was a "does not exist" ResourceError (watch expiry / SotW deletion)
 	touched    map[string]bool   // key -> any callback other than a connectivity error was seen
 	newW       map[int]bool
 	allowedMax int
@@ -81,7 +83,7 @@ type fmClose struct {
 // NewFallbackModel creates the model.
 func NewFallbackModel(s *Sim) *FallbackModel {
 	return &FallbackModel{cfg: s.Cfg, winfo: s.WInfo, openTr: map[int]int{}, trServer: map[int]int{}, streams: map[int]*fmStream{},
-		watched: map[string]int{}, wOf: map[int]string{}, hasValue: map[string]bool{}, touched: map[string]bool{}, newW: map[int]bool{},
+		watched: map[string]int{}, wOf: map[int]string{}, hasValue: map[string]bool{}, notExist: map[string]bool{}, touched: map[string]bool{}, newW: map[int]bool{},
 		allowedMax: -1, Stats: map[string]int{}, touchedAtFailure: map[int]map[string]bool{}}
 }
 
@@ -118,7 +120,8 @@ func (m *FallbackModel) ActiveServer() int {
 func (m *FallbackModel) uncachedNames() []string {
 	var out []string
 	for k, n := range m.watched {
-		if n > 0 && !m.hasValue[k] {
+		// gRFC A71: "cached" includes resources known not to exist
+		if n > 0 && !m.hasValue[k] && !m.notExist[k] {
 			out = append(out, k)
 		}
 	}
@@ -194,6 +197,7 @@ func (m *FallbackModel) one(e Event) {
 		if m.watched[k] <= 0 {
 			delete(m.watched, k)
 			delete(m.hasValue, k)
+			delete(m.notExist, k)
 			delete(m.touched, k)
 		}
 	case EvBuildFail:
@@ -221,7 +225,7 @@ func (m *FallbackModel) one(e Event) {
 				m.fail("fallback-without-connectivity-failure", "a transport to lower-priority server %d was created although no stream of a higher-priority server failed before delivering a response in this step (failures so far: %v)", e.Server, m.failures)
 			}
 			if un := m.uncachedNames(); len(un) == 0 {
-				m.fail("fallback-although-every-resource-is-cached", "a transport to lower-priority server %d was created although every watched resource has a cached value", e.Server)
+				m.fail("fallback-although-every-resource-is-cached", "a transport to lower-priority server %d was created although every watched resource has a cached value or is known not to exist (gRFC A71 counts both as cached)", e.Server)
 			}
 		}
 		m.openTr[e.Server] = e.Tr
@@ -288,6 +292,7 @@ func (m *FallbackModel) one(e Event) {
 		switch e.CBKind {
 		case CBChanged:
 			m.hasValue[k] = true
+			m.notExist[k] = false
 			m.touched[k] = true
 			if e.Val != nil && !m.newW[e.W] {
 				src := tagServer(e.Val.Tag)
@@ -301,6 +306,7 @@ func (m *FallbackModel) one(e Event) {
 		case CBResErr:
 			if ClassifyErr(e.Err) != ErrConn {
 				m.hasValue[k] = false
+				m.notExist[k] = ClassifyErr(e.Err) == ErrGone
 				m.touched[k] = true
 			}
 		case CBAmbient:
